@@ -50,7 +50,7 @@ func init() {
 			"Sparse6Decode:accepted_stream_with_pairs_beyond_n", "Sparse6Decode:accepted_stream_with_loops_or_repeats", "Sparse6Decode:accepted_stream_ending_on_byte_boundary",
 			"Sparse6Decode:accepted_without_stream",
 			"declared_n:unreadable", "declared_n:0", "declared_n:1", "declared_n:63..4096", "declared_n:>4096(skipped)",
-			"size_header_bytes=4", "size_header_bytes=8", "reencode_cycles",
+			"size_header_bytes=4", "size_header_bytes=8", "reencode_cycles", "reencode_cycles_through_the_other_format",
 			// part 7: the counters of the decoders at their numeric limits
 			"limits:vertex_number_width=64", "limits:vertex_number_width=32", "limits:vertex_number_width=0", "limits:vertex_number_width=12",
 			"limits:declared_n=0:size_header_bytes=1", "limits:declared_n=0:size_header_bytes=4", "limits:declared_n=0:size_header_bytes=8",
@@ -408,6 +408,41 @@ func (m *mon) judgeOutcome(dec, s, origin string) (outcome string) {
 	} else if diff != "" {
 		m.viol(dec, "reencode-cycle-changes-graph", sk, d, diff+" (re-encoded as "+clip(s2)+")", "decode(encode(graph)) == graph")
 		return outGraph
+	}
+	// re-encoding in the OTHER format (the result of Sparse6Decode written by Graph6Encode and the other way round), decoded
+	// again: still the same graph.  Small results only (graph6 of a sparse result asks n^2/2 edge questions).
+	if !large {
+		c.Obs("reencode_cycles_through_the_other_format", 1)
+		var s3 string
+		var err4 error
+		var b4 *rg.G
+		pi = c.Call(dec+"|"+sk+"|other-format", func() {
+			if dec == g6 {
+				s3 = graph.Sparse6Encode(h)
+				d4, e := graph.Sparse6Decode(s3)
+				if err4 = e; e == nil {
+					b4 = rg.FromGraph(d4)
+				}
+			} else {
+				s3 = graph.Graph6Encode(h)
+				d4, e := graph.Graph6Decode(s3)
+				if err4 = e; e == nil {
+					b4 = rg.FromGraph(d4)
+				}
+			}
+		})
+		d["reencoded_in_the_other_format_as"] = clip(s3)
+		if pi != nil {
+			m.viol(dec, "reencoded-in-the-other-format-panics|"+engine.SiteNoLine(pi.Site), sk, d, pi.String(), "decode(encode(graph)) == graph in either format")
+			return outGraph
+		} else if err4 != nil {
+			m.viol(dec, "reencoded-in-the-other-format-rejected", sk, d, "decoding "+clip(s3)+": error "+err4.Error(), "decode(encode(graph)) == graph in either format")
+			return outGraph
+		} else if b4.N != model.N || !model.Equal(b4) {
+			m.viol(dec, "reencode-cycle-through-the-other-format-changes-graph", sk, d, fmt.Sprintf("decoded %s, after encode+decode in the other format %s (written as %s)", model, b4, clip(s3)), "decode(encode(graph)) == graph in either format")
+			return outGraph
+		}
+		delete(d, "reencoded_in_the_other_format_as")
 	}
 	// a history: the caller EDITS the graph it got (it is the caller's) and decodes the same string again: the second
 	// result must be what the first was.  All results on at most 2 vertices and every 8th other small result.
